@@ -20,7 +20,39 @@ THOROUGH = CONFIGS + [
 ]
 
 
+def refinement(check):
+    """design level: USim refines the abstract queue QueueAbs and its read mutex refines LockAbs (TLC); Apalache
+    proves the invariant of QueueAbs (every accepted item buffered or received, once, in order) inductive"""
+    import core
+    import os
+    import shutil
+    import subprocess
+    import tempfile
+    import time
+    import tlc
+    for label, consts in CONFIGS:
+        check.model_check('refine_' + label, 'USimRef', 'Spec', consts, ['QueueInv'],
+                          properties=['QueueRefines1', 'QueueHead1', 'QueueOrder1', 'QueueClosed1', 'MutexRefines1'],
+                          coverage=False)
+    out = tempfile.mkdtemp(prefix='usimverif-apa-')
+    try:
+        for name, args in (('base', ['--init=Init', '--inv=IndInv', '--length=0']),
+                           ('step', ['--init=IndInit', '--inv=IndInv', '--length=1'])):
+            t0 = time.time()
+            p = subprocess.run(['apalache-mc', 'check', '--out-dir=' + out] + args + ['MC_QueueAbs.tla'], cwd=tlc.SPEC_DIR,
+                               stdout=subprocess.PIPE, stderr=subprocess.STDOUT, text=True, timeout=1200)
+            ok = p.returncode == 0 and 'The outcome is: NoError' in p.stdout
+            check.tlc_runs.append({'label': 'apalache_inductive_' + name, 'module': 'MC_QueueAbs', 'tool': 'apalache-mc',
+                                   'args': args, 'outcome': 'NoError' if ok else 'Error', 'wall_s': round(time.time() - t0, 1)})
+            if not ok:
+                raise core.MachineryError('Apalache: IndInv of QueueAbs is not inductive (%s): %s' % (name, p.stdout[-600:]))
+    finally:
+        shutil.rmtree(out, ignore_errors=True)
+        shutil.rmtree(os.path.join(tlc.SPEC_DIR, '_apalache-out'), ignore_errors=True)
+
+
 def run(check):
+    refinement(check)
     usimrun.explore(check, OBS, CONFIGS if check.tier == 'quick' else THOROUGH, random=True)
     # 3..6 receivers waiting, some leave from the middle of the waiting list, then the items arrive
     usimrun.judge(check, OBS, usimrun.waiter_runs(check, 'queue'))
